@@ -1,0 +1,37 @@
+//go:build verif
+
+package circuitbreaker
+
+// VerifRuleCtrl describes one circuit breaker in force: a copy of its bound rule, the breaker
+// object and its statistic structure. Verification builds only.
+type VerifRuleCtrl struct {
+	Rule Rule
+	Ctrl interface{}
+	Stat interface{}
+}
+
+// VerifRuleControllers returns the breakers of res in checking order.
+func VerifRuleControllers(res string) []VerifRuleCtrl {
+	updateMux.RLock()
+	defer updateMux.RUnlock()
+	cbs, ok := breakers[res]
+	if !ok {
+		return nil
+	}
+	ret := make([]VerifRuleCtrl, 0, len(cbs))
+	for _, cb := range cbs {
+		ret = append(ret, VerifRuleCtrl{Rule: *cb.BoundRule(), Ctrl: cb, Stat: cb.BoundStat()})
+	}
+	return ret
+}
+
+// VerifRuleResources returns the resources that have an entry in the breaker map.
+func VerifRuleResources() []string {
+	updateMux.RLock()
+	defer updateMux.RUnlock()
+	ret := make([]string, 0, len(breakers))
+	for k := range breakers {
+		ret = append(ret, k)
+	}
+	return ret
+}
